@@ -345,6 +345,15 @@ def run(chk, tier, seed, replay):
         if toks and "$" not in decl_text and '"' not in "".join(re.findall(r"\$t\d+[^,;)}\]]*\"", body)):
             params = " ".join(f"$t{n}:tt" for n in range(len(toks)))
             variants.append((key + ":macro_tt", f"macro_rules! gen_item {{ ({params}) => {{ {body} }} }}\ngen_item!({' '.join(toks)});"))
+    # ... and with the names of their VARIANTS and NAMED FIELDS passed in as `$h:ident` fragments by the macro's caller (the derive
+    # and the attributes in the macro's body): `self`, parameters and bindings an expansion introduces must not take a
+    # variant's / field's span (vlib.hygiene_twin; items whose attributes hold a format string are left alone)
+    for key, decl_text, obs_ in CASES:
+        if "$" in decl_text or "macro_rules" in decl_text:
+            continue
+        tw = vlib.hygiene_twin(decl_text)
+        if tw:
+            variants.append((key + ":macro_ident", tw))
     # named-field / variant forms with a #[deprecated] member for the derives whose expansions name the member
     NAMED = {"Add": "+", "Sub": "-", "BitAnd": "&", "BitOr": "|", "BitXor": "^"}
     for tr in list(NAMED) + ["AddAssign", "SubAssign", "Not", "Neg", "Sum", "Constructor", "Into", "From"]:
